@@ -1175,3 +1175,146 @@ def rule_clamp_to_tested_bound(ctx):
                 ctx.violated("CLAMPSAME", key, f.where(line), "`%s` is tested against `%s` but set to `%s`: when the two differ the clamp does not fire where it should" % (X[:40], A[:40], B[:40]))
     ctx.floor("CLAMPSAME", 10, n, "(clamps between variables)")
     return n
+
+
+class _CommitLast(PathAnalysis):
+    """user: True once the 'new element' flag has been cleared on this path"""
+
+    def __init__(self, prog):
+        super().__init__(prog)
+        self.exits = []
+        self.clears = 0
+
+    def init_user(self, func):
+        return False
+
+    def on_stmt(self, func, bid, idx, stmt, env, user):
+        u = user
+        for x in walk(stmt["e"]):
+            if x[0] == "asg" and x[1] == "=" and (mem_field(x[2]) or (0, 0))[1] == "new_elem" and is_int(x[3], 0):
+                u = True
+                self.clears += 1
+        return u
+
+    def on_exit(self, func, bid, retval, env, user):
+        self.exits.append((classify_ret(retval, self.fails), user))
+
+
+def rule_new_flag_cleared_last(ctx):
+    """COMMITLAST (C20): an element that has been created but has no space yet carries `new_elem`; Hsetlength gives it its space and
+    then clears the flag.  The request can be refused (the space would end beyond 2^31-1): then the flag must still be set, so
+    that the same access element can be given a length that fits, or simply be written to.  No failing exit of Hsetlength may
+    lie behind the statement that clears the flag; cleared first, a refused request leaves an element that is neither new nor
+    placed, and every later Hsetlength/Hwrite on it fails."""
+    prog = ctx.prog
+    f = prog.func("Hsetlength")
+    if f is None:
+        ctx.unrecognised("COMMITLAST", "COMMITLAST:Hsetlength", "-", "Hsetlength not found")
+        return 0
+    a = _CommitLast(prog)
+    a.fails = fail_values(f, prog)
+    a.run(f)
+    key = "COMMITLAST:Hsetlength"
+    if not a.clears:
+        ctx.unrecognised("COMMITLAST", key, f.where(), "Hsetlength no longer clears `new_elem`")
+        return 0
+    if any(cls == "fail" and u for cls, u in a.exits):
+        ctx.violated("COMMITLAST", key, f.where(), "Hsetlength can fail after it has cleared `new_elem`: a refused request leaves the access element half-initialised (not new, no offset/length), and it cannot be used again")
+    else:
+        ctx.holds("COMMITLAST", key, f.where(), "`new_elem` is cleared only after every call that can refuse the request has succeeded", nontrivial=True)
+    ctx.floor("COMMITLAST", 1, 1, "(routines that turn a new element into a placed one)")
+    return 1
+
+
+class _FreeThenFail(PathAnalysis):
+    def __init__(self, prog, freers):
+        super().__init__(prog)
+        self.freers = freers
+        self.exits = []
+        self.frees = 0
+
+    def init_user(self, func):
+        return False
+
+    def on_stmt(self, func, bid, idx, stmt, env, user):
+        u = user
+        for x in walk(stmt["e"]):
+            if x[0] == "call" and x[1] in self.freers:
+                u = True
+                self.frees += 1
+        return u
+
+    def on_exit(self, func, bid, retval, env, user):
+        self.exits.append((classify_ret(retval, self.fails), user))
+
+
+def rule_replace_frees_after_success(ctx):
+    """REPLACESAFE (C20): renaming replaces a name object: a new NC_string is made and the old one is freed.  Making the new one can be
+    refused (the name is longer than H4_MAX_NC_NAME): the routine then returns its failure value, and the dimension or variable
+    must still have its old name.  In a routine that both creates (NC_new_string) and frees (NC_free_string) a name, no failing
+    exit lies behind the free: freed first, a refused rename leaves a dangling or NULL name that the next SDdiminfo/SDend
+    dereferences."""
+    prog = ctx.prog
+    n = 0
+    for f in prog.lib_funcs():
+        if not f.rel.startswith("mfhdf/src/"):
+            continue
+        names = {c[1] for _b, _i, _s, c in f.calls() if isinstance(c[1], str)}
+        news = {x for x in names if x.endswith("NC_new_string")}
+        frees = {x for x in names if x.endswith("NC_free_string")}
+        if not news or not frees or not prog.is_public(f.name):
+            continue
+        a = _FreeThenFail(prog, frees)
+        a.fails = fail_values(f, prog)
+        a.run(f)
+        n += 1
+        key = "REPLACESAFE:%s" % f.name
+        if any(cls == "fail" and u for cls, u in a.exits):
+            ctx.violated("REPLACESAFE", key, f.where(), "%s can return its failure value after it has freed the old name: a refused rename leaves the object without a valid name" % f.name)
+        else:
+            ctx.holds("REPLACESAFE", key, f.where(), "the old name is freed only on paths that can no longer fail", nontrivial=True)
+    ctx.floor("REPLACESAFE", 1, n, "(public routines that replace a name object)")
+    return n
+
+
+def rule_byte_count_product_bounded(ctx, files=("hdf/src/vrw.c",)):
+    """PRODBOUND (C20): VSread and VSwrite turn the caller's record count into a byte count, `record size x count`, in a 32-bit local
+    that sizes the transfer buffer and the Hread/Hwrite that follows.  The record size goes up to 65535, so a count above
+    INT32_MAX / size wraps the product to a small number: the call then transfers a few bytes and reports the full count.  In a
+    public routine, a caller-supplied integer that is multiplied into such a local is compared with an upper bound before the
+    product (same decision procedure as SEEKPROD)."""
+    prog = ctx.prog
+    n = 0
+    for f in prog.lib_funcs():
+        if not f.rel.endswith(tuple(files)) or not prog.is_public(f.name):
+            continue
+        params = {q[0] for q in f.params if "*" not in (q[1] if len(q) > 1 else "")}
+        done = set()
+        for _b, _i, s, x in f.nodes(True):
+            if not (x[0] == "asg" and x[1] == "=" and kind(strip(x[2])) == "var"):
+                continue
+            r = strip(x[3])
+            if not (kind(r) == "bin" and r[1] == "*"):
+                continue
+            ps = [z[1] for z in (strip(r[2]), strip(r[3])) if kind(z) == "var" and z[1] in params]
+            for p in ps:
+                if (f.name, p, strip(x[2])[1]) in done:
+                    continue
+                done.add((f.name, p, strip(x[2])[1]))
+                n += 1
+                line = s.get("l", f.line)
+                key = "PRODBOUND:%s:%s" % (f.name, strip(x[2])[1])
+                bounded = False
+                for _b2, _i2, s2, c in f.nodes(True):
+                    if c[0] == "bin" and c[1] in (">", ">=", "<", "<=") and s2.get("l", 0) <= line:
+                        l_, r_ = strip(c[2]), strip(c[3])
+                        if c[1] in (">", ">=") and kind(l_) == "var" and l_[1] == p and not is_int(r_, 0):
+                            bounded = True
+                        if c[1] in ("<", "<=") and kind(r_) == "var" and r_[1] == p and not is_int(l_, 0):
+                            bounded = True
+                if bounded:
+                    ctx.holds("PRODBOUND", key, f.where(line), "`%s` is compared with an upper bound before `%s`" % (p, render(x)[:50]), nontrivial=True)
+                else:
+                    ctx.violated("PRODBOUND", key, f.where(line), "`%s` multiplies the caller's `%s`, which is never compared with an upper bound: a large count wraps the 32-bit byte count and the call transfers less than it reports" % (render(x)[:60], p))
+    ctx.floor("PRODBOUND", 2, n, "(byte counts computed from a caller-supplied record count)")
+    return n
